@@ -23,3 +23,6 @@ open RawPanelVerif.C03
 #print axioms encOut_no_nul
 #print axioms cbinding_nul_truncates_counterexample
 #print axioms caps_table_tie
+#print axioms proto_fields_partition
+#print axioms enc_ignores_noncarried
+#print axioms encOutX_sound
